@@ -134,6 +134,35 @@ fn check_inverse(ctx: &Ctx, civ: &Civil, tm: &Terms, ord: usize, b: usize, range
   }
   let probe = ord as i64 * 86400 + (2 * b as i64) * 3600 + 1800;
   let y = civ.date(ord).0 as isize;
+  // soundness for characters that never occur: real year/month/hour pillars with another day pillar of the same parity
+  // (the hour stem no longer follows from the day stem). Whatever is returned must still have exactly the searched characters.
+  if b % 4 <= 1 {
+    if let Some(w) = model_chars(civ, tm, probe, true) {
+      // -1: 'late Zi hour written with the current day's pillar' -- the hour stem belongs to the next day's stem
+      for shift in [-1i64, 1, 2, 10, 30] {
+        let di = pillar_idx(&w[2]).unwrap() as i64;
+        let fake = pillar_name(di + shift);
+        loc.transitions += 1;
+        let r = guard(|| {
+          let ec = tyme4rs::tyme::eightchar::EightChar::new(&w[0], &w[1], &fake, &w[3]);
+          let l = ec.get_solar_times((y - 60).max(1), (y + 60).min(9999));
+          l.iter().map(|t| (inst_of(civ, t), t.get_lunar_hour().get_eight_char().get_name())).collect::<Vec<_>>()
+        });
+        let name = format!("{} {} {} {}", w[0], w[1], fake, w[3]);
+        let key = format!("{} fake-day+{} range {}..{}", fmt_inst(civ, probe), shift, (y - 60).max(1), (y + 60).min(9999));
+        match r {
+          Ok(out) => {
+            for (t, back) in out {
+              if back != name {
+                ctx.violation("inverse_sound", key.clone(), format!("search for [{}] returned {} whose eight characters are [{}]", name, t.map(|t| fmt_inst(civ, t)).unwrap_or("?".into()), back), vec!["inv".into(), ord.to_string(), b.to_string(), "1".into(), "1".into()]);
+              }
+            }
+          }
+          Err(m) => ctx.violation("inverse_sound", key, format!("panics: {}", m), vec!["inv".into(), ord.to_string(), b.to_string(), "1".into(), "1".into()]),
+        }
+      }
+    }
+  }
   let want = match model_chars(civ, tm, probe, true) {
     Some(w) => w,
     None => return,
